@@ -30,6 +30,7 @@ type Entry struct {
 	Free  bool
 	Value Obj    // nil for Aux
 	Aux   string // "ObjStm" / "XRef": objects the writer added itself
+	AuxStream *Stream // ObjStm: the container as written (Raw = stored bytes, Plain = decoded payload)
 	Rev   int    // revision that wrote the current value
 	Gen   int
 	InStm int // container object number, 0 if stored plainly
@@ -385,7 +386,7 @@ func (w *Writer) Commit(rs RevSpec) []byte {
 		w.state[num] = e
 	}
 	for cnum := range containers {
-		w.state[cnum] = Entry{Aux: "ObjStm", Rev: w.revs}
+		w.state[cnum] = Entry{Aux: "ObjStm", Rev: w.revs, AuxStream: containers[cnum]}
 		w.members[cnum] = contMembers[cnum]
 	}
 	for _, f := range freeNums {
